@@ -29,6 +29,15 @@ type capture struct {
 	Path     string // request URI (HTTP)
 	CType    string
 	Records  []kafkaRec // kafka only
+	// Transport: the sink cut the connection instead of answering (the client
+	// sees a transport error: reset / EOF). NoRequest: the connection was cut
+	// right after accept, nothing was read (there is no body to judge).
+	Transport bool
+	NoRequest bool
+	Via       string // kind of the endpoint that saw the request ("" = the main sink)
+	// GzipMembers: number of gzip members of a compressed body (a real server
+	// reads the stream to EOF, i.e. the concatenation of all members)
+	GzipMembers int
 }
 
 type kafkaRec struct {
@@ -45,6 +54,10 @@ type sinkPlan struct {
 	// answered FailCode, for as long as the plan is installed: a retryable
 	// failure that persists until the plugin gives the batch up.
 	Poison string
+	// DropFirst: the sink reads the next DropFirst requests and then closes the
+	// connection without answering (DropRST: with SO_LINGER 0, i.e. a reset).
+	DropFirst int
+	DropRST   bool
 }
 
 type recorder struct {
@@ -81,6 +94,13 @@ func (r *recorder) take() []capture {
 func (r *recorder) decide(size int, body []byte) (ok bool, code int) {
 	r.mu.Lock()
 	defer r.mu.Unlock()
+	if r.plan.DropFirst > 0 {
+		r.plan.DropFirst--
+		if r.plan.DropRST {
+			return false, codeDropRST
+		}
+		return false, codeDrop
+	}
 	if r.plan.FailFirst > 0 {
 		r.plan.FailFirst--
 		return false, r.plan.FailCode
@@ -94,6 +114,39 @@ func (r *recorder) decide(size int, body []byte) (ok bool, code int) {
 	return true, 0
 }
 
+// pseudo status codes of decide: cut the connection instead of answering
+const (
+	codeDrop    = -1
+	codeDropRST = -2
+)
+
+// gunzipAll decodes a gzip body the way a real server does: the stream is
+// read to EOF and every member is decoded (RFC 1952 2.2: a gzip file is a
+// series of members; Go's gzip.Reader, zlib's gzread, Elasticsearch's
+// GZIPInputStream all return the concatenation). The members are counted
+// for the witness.
+func gunzipAll(raw []byte) (body []byte, members int, err error) {
+	br := bytes.NewReader(raw) // an io.ByteReader: the gzip reader does not read past a member
+	zr, err := gzip.NewReader(br)
+	if err != nil {
+		return nil, 0, err
+	}
+	for {
+		zr.Multistream(false)
+		part, err := io.ReadAll(zr)
+		if err != nil {
+			return nil, members, err
+		}
+		body = append(body, part...)
+		members++
+		if err := zr.Reset(br); err == io.EOF {
+			return body, members, nil
+		} else if err != nil {
+			return nil, members, err
+		}
+	}
+}
+
 // ---- HTTP ----
 
 type httpSink struct {
@@ -102,14 +155,24 @@ type httpSink struct {
 	ln     net.Listener
 	okCode int
 	okBody string
+	// force: answer this status to every request (an endpoint that is up but
+	// broken: 5xx), whatever the plan says
+	force int
+	via   string
 }
 
 func newHTTPSink(okCode int, okBody string) (*httpSink, error) {
+	return newHTTPSinkOn(newRecorder(), okCode, okBody, 0, "")
+}
+
+// newHTTPSinkOn starts one more listener that records into rec (several
+// endpoints of one plugin instance: one arrival order, one plan).
+func newHTTPSinkOn(rec *recorder, okCode int, okBody string, force int, via string) (*httpSink, error) {
 	ln, err := net.Listen("tcp", "127.0.0.1:0")
 	if err != nil {
 		return nil, err
 	}
-	s := &httpSink{rec: newRecorder(), ln: ln, okCode: okCode, okBody: okBody}
+	s := &httpSink{rec: rec, ln: ln, okCode: okCode, okBody: okBody, force: force, via: via}
 	s.srv = &http.Server{Handler: http.HandlerFunc(s.handle)}
 	go func() { _ = s.srv.Serve(ln) }()
 	return s, nil
@@ -125,20 +188,37 @@ func (s *httpSink) handle(w http.ResponseWriter, req *http.Request) {
 		w.WriteHeader(http.StatusBadRequest)
 		return
 	}
-	body := raw
+	body, members := raw, 0
 	if req.Header.Get("Content-Encoding") == "gzip" {
-		zr, err := gzip.NewReader(bytes.NewReader(raw))
-		if err == nil {
-			body, err = io.ReadAll(zr)
-		}
+		body, members, err = gunzipAll(raw)
 		if err != nil {
-			s.rec.add(capture{Body: raw, Status: 400, Path: req.RequestURI + " [undecodable gzip]"})
+			s.rec.add(capture{Body: raw, Status: 400, Path: req.RequestURI + " [undecodable gzip]", Via: s.via})
 			w.WriteHeader(http.StatusBadRequest)
 			return
 		}
 	}
-	ok, code := s.rec.decide(len(body), body)
-	c := capture{Body: body, Accepted: ok, Path: req.RequestURI, CType: req.Header.Get("Content-Type")}
+	var ok bool
+	var code int
+	if s.force != 0 {
+		ok, code = false, s.force
+	} else {
+		ok, code = s.rec.decide(len(body), body)
+	}
+	c := capture{Body: body, Accepted: ok, Path: req.RequestURI, CType: req.Header.Get("Content-Type"), Via: s.via, GzipMembers: members}
+	if !ok && code < 0 {
+		// cut the connection without an answer (the request was read completely)
+		c.Transport = true
+		s.rec.add(c)
+		if hj, isHj := w.(http.Hijacker); isHj {
+			if conn, _, err := hj.Hijack(); err == nil {
+				if tc, isTCP := conn.(*net.TCPConn); isTCP && code == codeDropRST {
+					_ = tc.SetLinger(0)
+				}
+				_ = conn.Close()
+			}
+		}
+		return
+	}
 	if ok {
 		c.Status = s.okCode
 	} else {
